@@ -57,15 +57,31 @@ def project(view: str, out: str, state: str, nofault_pv: bool = True):
     return (out, state)
 
 
-def run_both(hists, corr: Corr, ctx, view: str, what: str):
-    """Implementation traces for all histories; model comparison under `view` when the model runs."""
+def run_both(hists, corr: Corr, ctx, view: str, what: str, spec=None):
+    """Implementation traces for all histories; model comparison under `view` when the model runs.
+    With `spec` (a list), the driver also evaluates C06's Lean specification (`gspec`: `expectedAttempts` at the
+    model's state before each received line); one list of outputs per history is appended to `spec`."""
     impl = gw.run_impl_many(hists)
     if not ctx.model_ok:
         return impl
     lines = []
     for h in hists:
-        lines.extend(gw.model_lines(h))
+        for l in gw.model_lines(h):
+            if spec is not None and l.startswith("grecv "):
+                lines.append("gspec " + l[len("grecv "):])
+            lines.append(l)
     outs = lib.run_model(lines)
+    if spec is not None:
+        plain, cur = [], None
+        for l, o in zip(lines, outs):
+            if l.startswith("gnew "):
+                cur = []
+                spec.append(cur)
+            if l.startswith("gspec "):
+                cur.append(o)
+            else:
+                plain.append(o)
+        outs = plain
     pos = 0
     for h, io in zip(hists, impl):
         n = gw.n_model_lines(h)
@@ -609,9 +625,13 @@ def run_c06(ctx) -> Corr:
                 "known/unknown, requester sleeping or not) x 5 versions x instants incl. leap day, 2038, DST change, year end; "
                 "compared on the writes view (write attempts per step, both buffers) with the Lean model; oracle = the reaction "
                 "table of the property restated in Python (id response, config, time via calendar.timegm, value reply, discover, "
-                "reboot, presentation request, released commands, version query). non-trivial = distinct (state, line) that "
-                "produces at least one write")
+                "reboot, presentation request, released commands, version query); in addition the write attempts of every "
+                "received line are compared with the Lean specification expectedAttempts (Model/WriteSpec.lean, theorem "
+                "writes_eq_attempts) evaluated by the driver at the state before the line. non-trivial = distinct (state, line) "
+                "that produces at least one write")
     hists = [h for _, h in corpus_histories("C06")] + histories(ctx, "c06h", 300, 5000, send_ratio=0.15, fault_ratio=0.0)
+    # failing writes: only the comparison with the Lean specification (expectedAttempts) looks at these steps
+    hists += histories(ctx, "c06f", 60, 1000, send_ratio=0.3, fault_ratio=0.3)
     # time zones: the handler uses time.localtime(); the harness substitutes broken-down local times directly
     rng = lib.rng_for(ctx.seed, "c06t")
     for v in lib.VERSIONS:
@@ -633,7 +653,23 @@ def run_c06(ctx) -> Corr:
                              "9;255;4;0;0;fw", "1;255;4;0;9;fw", "1;1;0;0;6;d", "9;1;0;0;6;d", "255;255;3;0;3;", "bad line", "1;255;3;0;22;x"]:
                     h.ops.append(("recv", line, (), gw.DEFAULT_TIME))
                 hists.append(h)
-    impl = run_both(hists, corr, ctx, "writes", "writes view")
+    spec: list = []
+    impl = run_both(hists, corr, ctx, "writes", "writes view", spec=spec)
+    # the implementation's write attempts against the Lean specification `expectedAttempts` (Model/WriteSpec.lean,
+    # theorem C06.writes_eq_attempts), evaluated by the driver at the state before each received line
+    for h, io, sp in zip(hists, impl, spec):
+        k = 0
+        for i, op in enumerate(h.ops):
+            if op[0] != "recv":
+                continue
+            want, k = sp[k], k + 1
+            got = ("spec" + gw.render_writes(io[i + 1]["writes"])) if fields_of(op[1]) is not None else "invalid"
+            corr.count("spec:" + (("compared, failing writes" if op[2] else "compared") if want != "invalid" else "rejected line"))
+            if got != want:
+                corr.disagree("the write attempts differ from the Lean specification expectedWrites / expectedAttempts",
+                              {"history": Hist(h.version, h.metric, h.preload, h.ops[: i + 1]).to_json(), "step": i + 1,
+                               "impl": got, "spec": want})
+                break
     for h, io in zip(hists, impl):
         for i, op in enumerate(h.ops):
             if op[0] != "recv" or op[2]:
